@@ -84,6 +84,7 @@ type c12Attrs struct {
 type c12Op struct {
 	Op    string    `json:"op"` // authn | authz | healthy | disabled | restart | evictt | evicts
 	Host  *string   `json:"host"`
+	Host2 *string   `json:"host2"` // overlapt / overlaps: the host of the second request
 	HVia  string    `json:"hvia"` // direct | factory | factoryport : how ExtraRequestInfo is produced
 	AVia  string    `json:"avia"` // "" | impersonate : Authorize called directly / by the impersonation filter
 	Tok   string    `json:"tok"`
@@ -131,6 +132,11 @@ type stepObs struct {
 	Err    errObs    `json:"err"`
 	Calls  []callObs `json:"calls"`
 	Note   string    `json:"note,omitempty"`
+	// overlapt / overlaps (kind P): the request whose review was held in flight, the request that ran
+	// meanwhile, and whether the second one failed to complete before the first one's review was released
+	A       *stepObs `json:"a,omitempty"`
+	B       *stepObs `json:"b,omitempty"`
+	Blocked bool     `json:"blocked,omitempty"`
 }
 
 // ---------------------------------------------------------------- rig
@@ -145,6 +151,8 @@ type c12Rig struct {
 	tidx    map[string]int
 	sidx    map[string]int
 	calls   []callObs
+	gate    *c12Gate
+	via     string
 	now     int64
 	tok     authenticator.Token
 	req     authenticator.Request
@@ -171,6 +179,31 @@ func (r *c12Rig) record(cluster string, ep *clusters.EndpointInfo) {
 	r.calls = append(r.calls, callObs{C: cluster, Ready: ep.IsReady()})
 }
 
+// c12Gate holds the first review of one kind that one cluster receives until release is closed.
+type c12Gate struct {
+	cluster, kind string
+	used          bool
+	entered       chan struct{}
+	release       chan struct{}
+}
+
+// takeGate is called by a reactor under r.mu; it returns the gate to wait on (or nil).
+func (r *c12Rig) takeGate(cluster, kind string) *c12Gate {
+	g := r.gate
+	if g == nil || g.used || g.cluster != cluster || g.kind != kind {
+		return nil
+	}
+	g.used = true
+	close(g.entered)
+	return g
+}
+
+func (g *c12Gate) wait() {
+	if g != nil {
+		<-g.release
+	}
+}
+
 // newCluster builds a real ClusterInfo with n endpoints whose clientsets are scripted fakes.
 func (r *c12Rig) newCluster(name string, n int) *clusters.ClusterInfo {
 	obj := &proxyv1alpha1.UpstreamCluster{
@@ -195,13 +228,15 @@ func (r *c12Rig) newCluster(name string, n int) *clusters.ClusterInfo {
 		epc := ep
 		cs.PrependReactor("create", "tokenreviews", func(k8stesting.Action) (bool, runtime.Object, error) {
 			r.mu.Lock()
-			defer r.mu.Unlock()
 			r.record(name, epc)
 			a := c12Answer{K: "fail"}
 			if k := r.tidx[name]; k < len(r.tscript[name]) {
 				a = r.tscript[name][k]
 			}
 			r.tidx[name]++
+			g := r.takeGate(name, "T")
+			r.mu.Unlock()
+			g.wait() // the review is "in flight" until the harness releases it
 			switch a.K {
 			case "auth":
 				return true, &authenticationv1.TokenReview{Status: authenticationv1.TokenReviewStatus{
@@ -217,13 +252,15 @@ func (r *c12Rig) newCluster(name string, n int) *clusters.ClusterInfo {
 		})
 		cs.PrependReactor("create", "subjectaccessreviews", func(k8stesting.Action) (bool, runtime.Object, error) {
 			r.mu.Lock()
-			defer r.mu.Unlock()
 			r.record(name, epc)
 			a := c12Answer{K: "fail"}
 			if k := r.sidx[name]; k < len(r.sscript[name]) {
 				a = r.sscript[name][k]
 			}
 			r.sidx[name]++
+			g := r.takeGate(name, "S")
+			r.mu.Unlock()
+			g.wait()
 			if a.K == "status" {
 				return true, &authorizationv1.SubjectAccessReview{Status: authorizationv1.SubjectAccessReviewStatus{
 					Allowed: a.Allowed, Denied: a.Denied, Reason: a.Reason}}, nil
@@ -456,10 +493,133 @@ func (r *c12Rig) endpoint(c string, i int) *clusters.EndpointInfo {
 	return ep
 }
 
+func (r *c12Rig) doAuthn(op *c12Op, st *stepObs) {
+	st.Kind = "T"
+	req := r.newRequest(op)
+	var resp *authenticator.Response
+	var ok bool
+	var err error
+	if r.via == "request" {
+		req.Header.Set("Authorization", "Bearer "+op.Tok)
+		resp, ok, err = r.req.AuthenticateRequest(req)
+	} else {
+		resp, ok, err = r.tok.AuthenticateToken(req.Context(), op.Tok)
+	}
+	st.OK = ok
+	if resp != nil && resp.User != nil {
+		st.User = []string{resp.User.GetName(), resp.User.GetUID()}
+	}
+	st.Err = c12Classify(err, r.via == "request")
+}
+
+func (r *c12Rig) doAuthz(op *c12Op, st *stepObs) {
+	st.Kind = "S"
+	req := r.newRequest(op)
+	var dec authorizer.Decision
+	var reason string
+	var err error
+	if op.AVia == "impersonate" {
+		dec, reason, err, st.Note = r.impersonate(req, op.Attrs)
+	} else {
+		dec, reason, err = r.authz.Authorize(req.Context(), op.Attrs.record())
+	}
+	st.Dec = int(dec)
+	st.Reason = reason
+	st.Err = c12Classify(err, false)
+}
+
+func (r *c12Rig) takeCalls() []callObs {
+	r.mu.Lock()
+	defer r.mu.Unlock()
+	out := append([]callObs{}, r.calls...)
+	r.calls = nil
+	return out
+}
+
+// overlap: request A (op.Host) is started; the first review its cluster receives is held in flight;
+// meanwhile request B (op.Host2, same token / same attributes) must run to completion on its own
+// (bounded wait 300 ms); then A's review is released and A's result collected.
+// Reviews are attributed by phase: received before B starts or after the release -> A, received
+// while B runs (A is parked on the gate and makes none) -> B.
+func (r *c12Rig) overlap(op *c12Op) stepObs {
+	kind := "T"
+	if op.Op == "overlaps" {
+		kind = "S"
+	}
+	opA, opB := *op, *op
+	opB.Host = op.Host2
+	run := func(o *c12Op) *stepObs {
+		st := &stepObs{Calls: []callObs{}}
+		defer func() {
+			if x := recover(); x != nil {
+				st.Err = errObs{C: "other", Msg: fmt.Sprint("panic: ", x)}
+			}
+		}()
+		if kind == "T" {
+			r.doAuthn(o, st)
+		} else {
+			r.doAuthz(o, st)
+		}
+		return st
+	}
+	g := &c12Gate{kind: kind, entered: make(chan struct{}), release: make(chan struct{})}
+	if op.Host != nil {
+		if ci, ok := r.mgr.Get(*op.Host); ok {
+			g.cluster = ci.Cluster
+		}
+	}
+	r.mu.Lock()
+	if g.cluster != "" {
+		r.gate = g
+	}
+	r.mu.Unlock()
+	doneA := make(chan *stepObs, 1)
+	go func() { doneA <- run(&opA) }()
+	var a, b *stepObs
+	select {
+	case <-g.entered: // A's review is in flight
+	case a = <-doneA: // A needed no review (cache hit / refused)
+	case <-time.After(5 * time.Second):
+		panic("overlap: request A neither asked its cluster nor returned")
+	}
+	callsA := r.takeCalls()
+	doneB := make(chan *stepObs, 1)
+	go func() { doneB <- run(&opB) }()
+	blocked := false
+	select {
+	case b = <-doneB:
+	case <-time.After(300 * time.Millisecond):
+		blocked = true
+	}
+	callsB := r.takeCalls()
+	close(g.release)
+	if a == nil {
+		select {
+		case a = <-doneA:
+		case <-time.After(20 * time.Second):
+			panic("overlap: request A did not return after its review was released")
+		}
+	}
+	if b == nil {
+		select {
+		case b = <-doneB:
+		case <-time.After(20 * time.Second):
+			panic("overlap: request B never returned")
+		}
+	}
+	callsA = append(callsA, r.takeCalls()...)
+	r.mu.Lock()
+	r.gate = nil
+	r.mu.Unlock()
+	a.Calls, b.Calls = callsA, callsB
+	return stepObs{Kind: "P", Calls: []callObs{}, A: a, B: b, Blocked: blocked}
+}
+
 func runC12(raw json.RawMessage) interface{} {
 	var c c12Case
 	must(json.Unmarshal(raw, &c))
 	r := newC12Rig(&c)
+	r.via = c.Via
 	defer r.stop()
 	steps := []stepObs{}
 	for i := range c.Ops {
@@ -471,36 +631,11 @@ func runC12(raw json.RawMessage) interface{} {
 		st := stepObs{Kind: "N", Calls: []callObs{}}
 		switch op.Op {
 		case "authn":
-			st.Kind = "T"
-			req := r.newRequest(op)
-			var resp *authenticator.Response
-			var ok bool
-			var err error
-			if c.Via == "request" {
-				req.Header.Set("Authorization", "Bearer "+op.Tok)
-				resp, ok, err = r.req.AuthenticateRequest(req)
-			} else {
-				resp, ok, err = r.tok.AuthenticateToken(req.Context(), op.Tok)
-			}
-			st.OK = ok
-			if resp != nil && resp.User != nil {
-				st.User = []string{resp.User.GetName(), resp.User.GetUID()}
-			}
-			st.Err = c12Classify(err, c.Via == "request")
+			r.doAuthn(op, &st)
 		case "authz":
-			st.Kind = "S"
-			req := r.newRequest(op)
-			var dec authorizer.Decision
-			var reason string
-			var err error
-			if op.AVia == "impersonate" {
-				dec, reason, err, st.Note = r.impersonate(req, op.Attrs)
-			} else {
-				dec, reason, err = r.authz.Authorize(req.Context(), op.Attrs.record())
-			}
-			st.Dec = int(dec)
-			st.Reason = reason
-			st.Err = c12Classify(err, false)
+			r.doAuthz(op, &st)
+		case "overlapt", "overlaps":
+			st = r.overlap(op)
 		case "healthy":
 			if ep := r.endpoint(op.C, op.I); ep != nil {
 				ep.UpdateStatus(op.B, "verif", "verif")
